@@ -26,7 +26,7 @@ hooks_commits = [l.split()[0] for l in subprocess.run(
 
 m = dict(
     version=1,
-    setup_cmd="cd /verif/harness && cp /repo/go.sum . && GOFLAGS=-mod=mod GOPROXY=off GOSUMDB=off GOTOOLCHAIN=local go build -tags verif ./... && python3 -c 'import json;json.load(open(\"/verif/MANIFEST.json\"))'",
+    setup_cmd="cd /verif/harness && cp /repo/go.sum . && GOFLAGS=-mod=mod GOPROXY=off GOSUMDB=off GOTOOLCHAIN=local go build ./vh && python3 -c 'import json;json.load(open(\"/verif/MANIFEST.json\"))'",
     hooks=dict(guard="verif", enable="go build -tags verif (harness module /verif/harness, replace github.com/emersion/go-imap/v2 => /repo)",
                baseline_off_cmd="cd /repo && go test -vet=off -count=1 ./...",
                source_commits=hooks_commits, add_only=True),
